@@ -39,7 +39,7 @@ def vectors(ctx, states):
                     te, to = (4 * 3 + 2, 4 * 3 + 1) if evn else (4 * 3 + 1, 4 * 3 + 1 + k % 2)
                 fn = "adsb.position" if (k + evn) % 2 else "adsb.surface_position"
                 V.append({"fn": fn, "f0": fe, "f1": fo, "t0": te, "t1": to, "ht": 1, "truth": truth, "kind": "surf",
-                          "hasref": 1, "r": r, "s": s, "dt": 1 if k % 13 == 0 else 0, "tq": tq,
+                          "hasref": 1, "r": r, "s": s, "dt": {0: 1, 6: 2, 9: 3}.get(k % 13, 0), "tq": tq,
                           "case": [c["a0"], c["o0"], c["a1"] - c["a0"], c["o1"] - c["o0"], off[0], off[1], evn]})
         if k % 25 == 0:
             V.append({"fn": "adsb.position", "f0": fe, "f1": fo, "t0": 1, "t1": 2, "ht": 0, "truth": truth, "kind": "surf",
